@@ -269,6 +269,7 @@ fn hexnum(s: &str) -> BigUint {
     BigUint::parse_bytes(t.as_bytes(), 16).unwrap()
 }
 
+#[cfg(not(feature = "w32"))]
 impl FieldApi for crrl::field::GFsecp256k1 {
     const NAME: &'static str = "GFsecp256k1";
     const ENC_LEN: usize = 32;
@@ -342,6 +343,11 @@ macro_rules! modint_impl {
         }
     };
 }
+
+// under the 32-bit backend GFsecp256k1 is an instance of the generic ModInt256
+#[cfg(feature = "w32")]
+modint_impl!(crrl::field::GFsecp256k1, "GFsecp256k1",
+    "fffffffffffffffffffffffffffffffffffffffffffffffffffffffefffffc2f");
 
 modint_impl!(crrl::field::GFp256, "GFp256",
     "ffffffff00000001000000000000000000000000ffffffffffffffffffffffff");
